@@ -53,7 +53,7 @@ def regenerate():
 # ------------------------------------------------------------------------------------------ alphabets
 
 ST_DEFAULT = {"max_chol": 800, "fc_root": True, "fc_logprob": True, "fc_solves": True, "ciq": False,
-              "precond_size": 15, "min_precond": 2000}
+              "precond_size": 15, "min_precond": 2000, "max_root": 100}
 
 
 def st(**kw):
@@ -162,6 +162,28 @@ def switch_histories(label, quick):
     return out
 
 
+# a writer with an EXPLICIT method under non-default accuracy / size settings, then a DEFAULT-argument reader under the
+# default settings (another cache key: a transparent library computes the reader's answer afresh)
+LOWRANK = {"lowrank": st(max_root=2), "lowrank_chol0": st(max_chol=0, max_root=2)}
+EXPL_WRITERS = ([["diagonalization", [], [["method", S(m)]]] for m in ("lanczos", "symeig")]
+                + [["root_decomposition", [], [["method", S(m)]]] for m in ("lanczos", "symeig", "svd", "pivoted_cholesky")]
+                + [["root_inv_decomposition", [], [["method", S(m)]]] for m in ("lanczos", "symeig")]
+                + [["cholesky", [], [["upper", B(True)]]], ["svd"]])
+DEF_READERS = [["diagonalization", [], []], ["root_decomposition", [], []], ["root_inv_decomposition", [], []],
+               ["cholesky", [], []], ["sample", 0], ["logdet"], ["inv_quad_logdet", 0, True], ["solve", 0], ["eigh"]]
+
+
+def explicit_then_default(label, quick):
+    main = label in ("Dense", "AddedDiag(Dense,ConstantDiag)", "Kron(Dense,Dense)")
+    regs = list(LOWRANK) if (main or not quick) else ["lowrank"]
+    out = []
+    for r in regs:
+        for w in EXPL_WRITERS:
+            for q in DEF_READERS:
+                out.append([("set", LOWRANK[r], False), ("q", w, False), ("set", st(), False), ("q", q, False)])
+    return out
+
+
 def shared_base_histories(label, quick):
     """families in which several operators share one base object (the derived operator keeps self as a child):
     a cache-writing query on the derived operator, then a query on the BASE, or on a second operator derived from it"""
@@ -236,6 +258,53 @@ def root_exprs(quick):
     return out
 
 
+# factor classes as history roots (outside the transcription: direct predicates): BOTH orientations, and the queries
+# through which a cached inverse / transposed factor is written and read
+Q_FACTOR = [["to_dense"], ["inverse"], ["root_inverse"], ["root_inv_decomposition", [], []], ["root_decomposition", [], []],
+            ["cholesky", [], []], ["cholesky", [], [["upper", B(True)]]], ["solve", 0], ["solve", 1], ["solve_vec"],
+            ["solve_left", 0], ["linalg_solve", 0], ["inv_quad_logdet", 0, True], ["inv_quad_logdet", 1, False], ["logdet"],
+            ["matmul", 0], ["diagonal"], ["sample", 0]]
+FACTOR_WRITERS = [["inverse"], ["root_inverse"], ["root_inv_decomposition", [], []], ["cholesky", [], [["upper", B(True)]]],
+                  ["cholesky", [], []], ["to_dense"]]
+
+
+def factor_exprs():
+    from . import opbuild
+    import torch
+    out = []
+    t = [[2.0, 0.0, 0.0], [0.7, 1.5, 0.0], [-0.4, 0.9, 1.2]]
+    tl = {"shape": [3, 3], "data": [x for r in t for x in r]}
+    tu = {"shape": [3, 3], "data": [t[j][i] for i in range(3) for j in range(3)]}
+    tb = {"shape": [2, 3, 3], "data": [x for r in t for x in r] + [1.5 * x + (0.5 if i == j else 0.0) for i, r in enumerate(t) for j, x in enumerate(r)]}
+    out.append(("Chol(lower)", {"cls": "Chol", "t": tl, "upper": False}))
+    out.append(("Chol(upper)", {"cls": "Chol", "t": tu, "upper": True}))
+    out.append(("Chol(lower)[2]", {"cls": "Chol", "t": tb, "upper": False}))
+    out.append(("Triangular(lower)", {"cls": "Triangular", "t": tl, "upper": False}))
+    out.append(("Triangular(upper)", {"cls": "Triangular", "t": tu, "upper": True}))
+    out.append(("Root(dense)", {"cls": "Root", "root": tl}))
+    return out
+
+
+# queries that are defined for positive definite operators only (a TriangularLinearOperator root is not one)
+PSD_ONLY = {"root_inv_decomposition", "root_decomposition", "cholesky", "sample", "diagonalization", "svd", "eigh", "eigvalsh"}
+
+
+def factor_jobs(quick):
+    jobs = []
+    for label, expr in factor_exprs():
+        psd = not label.startswith("Triangular")
+        QF = [q for q in Q_FACTOR if psd or q[0] not in PSD_ONLY]
+        FW = [q for q in FACTOR_WRITERS if psd or q[0] not in PSD_ONLY]
+        for a in QF:
+            for b_ in QF:
+                jobs.append((label, expr, [("q", a, False), ("q", b_, False)]))
+        for a in FW:
+            for b_ in FW:
+                for c in (QF if not quick else [q for q in Q_FACTOR[7:16] if q in QF]):
+                    jobs.append((label, expr, [("q", a, False), ("q", b_, False), ("q", c, False)]))
+    return jobs
+
+
 def other_exprs():
     """classes outside the transcribed universe: direct property predicates only"""
     from . import opbuild
@@ -296,6 +365,15 @@ def run_history(expr, events, want_fresh=True):
                     rec["steps"].append(stp)
                     break
                 penv = getattr(w, "precond_env", {}).get(i)     # state of the preconditioner cache BEFORE the call
+                # the object already holds entries the oracle rejects: keep what is needed to ask, if this answer fails too,
+                # whether it fails BECAUSE of them (the same query on a copy whose cache holds all the other entries)
+                prev_bad_pos = [b_[1] for b_ in (rec["steps"][-1]["bad"] if rec["steps"] else []) if b_[0] == i and b_[1] < 990]
+                pre_cache = None
+                if prev_bad_pos and want_fresh:
+                    d_ = getattr(w.objs[i], "_memoize_cache", None) or {}
+                    raw = [k_ for k_ in d_.keys() if not W.ignored_key(k_)]
+                    drop = {raw[p_] for p_ in prev_bad_pos if p_ < len(raw)}
+                    pre_cache = {k_: v_ for k_, v_ in d_.items() if k_ not in drop}
                 raised, ans, ctx = w.do_query(i, q, seed=si)
                 A = w.dense[i]
                 asp = W.query_aspect(q)
@@ -362,6 +440,8 @@ def run_history(expr, events, want_fresh=True):
                                     ["%s:method-confused" % q[0],
                                      "valid, but not the %s factor a fresh object returns" % det])
                 stp["transparent"] = bool(transparent)
+                if not transparent and pre_cache is not None:
+                    stp["cf_transparent"] = counterfactual_query(w, i, q, si, pre_cache, asp)
             elif kind == "d":
                 i, d = ev[1], ev[2]
                 if i >= len(w.objs):
@@ -381,6 +461,10 @@ def run_history(expr, events, want_fresh=True):
                     newest = j
                     if d[0] in ("add_low_rank", "cat_rows"):
                         stp["roots_compatible"] = roots_compatible(w, i, d)
+                        pk = rec["steps"][-1]["keys"][i] if rec["steps"] and i < len(rec["steps"][-1]["keys"]) else []
+                        stp["root_route"] = root_route(pk, d, cur, int(w.objs[i].shape[-1]))
+                        if stp["roots_compatible"] == "incompatible" and stp["root_route"] == "computed-together" and want_fresh:
+                            stp["fresh_derive_bad"] = fresh_derive_bad(w, i, d, si)
                     stp["profiles"] = w.profiles(new)
             elif kind == "seed":
                 stp.update(raised=w.seed_symeig(ev[1]), transparent=True, why="")
@@ -555,6 +639,70 @@ def fresh_bad_keys(w, i, q, si):
         return [json.dumps(ks[p_]) for (o_, p_, _) in w2.bad_entries(tol=TOL) if o_ == 0 and p_ < 990]
     except Exception:
         return []
+
+
+def counterfactual_query(w, i, q, si, cache, asp):
+    """the same query on a copy of object i whose cache holds the given entries (the original's without the ones the
+    oracle had rejected): True = the answer is fine then (the failure was a consequence of those entries)"""
+    from . import c12_world as W
+    try:
+        clone = w.objs[i].clone()
+        clone._memoize_cache = dict(cache)
+        w2 = object.__new__(W.World)
+        w2.O = w.O
+        w2.objs, w2.ids, w2.dense, w2.tensors = [clone], {id(clone): 0}, [w.dense[i]], []
+        raised, ans, ctx = w2.do_query(0, q, seed=si)
+        if raised:
+            return False
+        return bool(W.valid(asp, w.dense[i], ans, TOL, ctx)[0])
+    except Exception:
+        return None
+
+
+def root_route(prev_keys, d, cur, n):
+    """how the (root, inverse root) pair of a transplanting derivation came about:
+       cached-before           one of the two requests was already answered from the cache (computed earlier, possibly
+                               by another method / under other settings / as a Lanczos by-product)
+       explicit-methods-differ the caller asked for two different methods (or for one, leaving the other to the default)
+       lanczos                 Lanczos is involved: two independent runs
+       computed-together       both computed now through the same default choice: they belong together"""
+    if d[0] == "add_low_rank":
+        m1, m2 = d[2], d[3]
+        kr = ["full", ["str", "root_decomposition"], [], [["method", m1]]]
+        ki = ["full", ["str", "root_inv_decomposition"], [], [["method", m2]]]
+    else:
+        m1 = m2 = NONE
+        kr = ["full", ["str", "root_decomposition"], [], []]
+        ki = ["full", ["str", "root_inv_decomposition"], [], []]
+    if kr in prev_keys or ki in prev_keys:
+        return "cached-before"
+    e1 = m1[1] if m1[0] == "str" else None
+    e2 = m2[1] if m2[0] == "str" else None
+    if e1 != e2 and not ({e1, e2} <= {"symeig", "svd"}):
+        return "explicit-methods-differ"
+    if "lanczos" in (e1, e2) or (n > cur["max_chol"] and cur["fc_root"]):
+        # (in the Lanczos regime also with explicit methods: "diagonalization" is a Lanczos run there, and classes that
+        # delegate to children - Kron, ConstantMul - follow the children's defaults)
+        return "lanczos"
+    return "computed-together"
+
+
+def fresh_derive_bad(w, i, d, si):
+    """does the same derivation on a FRESH copy of object i leave invalid entries on the new operator as well?
+    (True: the transplant is wrong whatever the history; False: only after this history; None: could not be decided)"""
+    from . import c12_world as W
+    try:
+        clone = w.objs[i].clone()
+        w2 = object.__new__(W.World)
+        w2.O = w.O
+        w2.objs, w2.ids, w2.dense, w2.tensors = [clone], {id(clone): 0}, [w.dense[i]], []
+        w2._entry_memo, w2._keep = {}, []
+        raised, j, _ = w2.do_derive(0, d, seed=si)
+        if raised:
+            return None
+        return any(o_ == j and p_ < 990 for (o_, p_, _) in w2.bad_entries(tol=TOL))
+    except Exception:
+        return None
 
 
 def fresh_derive_raises(w, i, d, si):
@@ -849,6 +997,8 @@ def plan(ctx, exprs):
                 jobs.append((label, expr, h))
             for h in shared_base_histories(label, True):
                 jobs.append((label, expr, h))
+            for h in explicit_then_default(label, True):
+                jobs.append((label, expr, h))
             nr = 60
         else:
             L = 3 if label in ("Dense", "AddedDiag(Dense,ConstantDiag)", "AddedDiag(Dense,Diag)", "Toeplitz") else 2
@@ -860,6 +1010,8 @@ def plan(ctx, exprs):
             for h in switch_histories(label, False):
                 jobs.append((label, expr, h))
             for h in shared_base_histories(label, False):
+                jobs.append((label, expr, h))
+            for h in explicit_then_default(label, False):
                 jobs.append((label, expr, h))
             nr = 600
         for _ in range(nr):
@@ -911,8 +1063,8 @@ def problems_of(label, rec):
         if tgt is not None:
             cs = [c for (o, p_), c in sorted(cause_of.items()) if o == tgt]
             inherited = cs[0] if cs else None
-            if inherited == "kernel" and len(set(cs)) > 1:
-                inherited = [c for c in cs if c != "kernel"][0]
+            if inherited and inherited.startswith("kernel") and any(not c.startswith("kernel") for c in cs):
+                inherited = [c for c in cs if not c.startswith("kernel")][0]
         if not stp.get("settings_ok", True):
             out.append((si, {"cause": "settings-not-applied", "op": op, "fail": "settings", "root": label}, "settings"))
         def had(nm):
@@ -944,7 +1096,7 @@ def problems_of(label, rec):
                              "cls": (rec.get("classes") or [])[tgt] if tgt is not None and tgt < len(rec.get("classes") or []) else None}, xw))
         via_ = None
         if not stp["transparent"]:
-            if inherited and inherited != "kernel":
+            if inherited and not inherited.startswith("kernel") and stp.get("cf_transparent") is not False:
                 cause = inherited
             elif op in ("eigh", "eigvalsh") and had_symeig:
                 cause = "%s:symeig-entry" % op
@@ -953,12 +1105,17 @@ def problems_of(label, rec):
                 # the answer is invalid only because the cache made _choose_root_method pick a method whose result
                 # is invalid for this class (a fresh object picks another one)
                 cause = choice_cause = "cache-chosen-method"
-            elif inherited:
-                cause = inherited
+            elif inherited and inherited.startswith("kernel"):
+                # the object holds an entry that is invalid on a fresh copy as well (e.g. a low-rank Lanczos factor computed
+                # under a small max_root_decomposition_size, or on close eigenvalues) - but THIS answer is invalid where a
+                # fresh object's is valid: the entry was handed out for another request / under other settings
+                _, w_op, w_entry = (inherited.split(":") + ["?", "?"])[:3]
+                cause = "stale-entry:%s-wrote-%s" % (w_op, w_entry)
             else:
                 cause = "%s:%s" % (op, "raised" if stp.get("raised") else "invalid-answer")
             out.append((si, {"cause": cause, "op": op, "fail": "answer", "root": label, "method": chosen,
-                             "consequence": bool(inherited), "via": via_}, stp.get("why") or stp.get("exc") or ""))
+                             "consequence": bool(inherited) and cause == inherited, "via": via_},
+                        stp.get("why") or stp.get("exc") or ""))
         cur = {}
         for (bi, bp, why) in stp["bad"]:
             kk = stp["keys"][bi][bp] if bp < 990 else ["adhoc", ["str", {999: "_q_cache", 998: "_sparse_interp_t_memo"}.get(bp, "unknown-cache-attribute")]]
@@ -982,10 +1139,10 @@ def problems_of(label, rec):
                 # the query's own answer is invalid on a fresh clone as well: the class's factorization itself is
                 # wrong (C04-C06), the entry it leaves behind is no cache effect (recorded, so that the triage knows the
                 # step is explained; never reported: OUTSIDE_HYPOTHESES)
-                newc[ident] = "kernel"
+                newc[ident] = "kernel:%s:%s" % (op, kk[1][1])
                 out.append((si, {"cause": "kernel", "op": op, "fail": "entry", "root": label}, why))
                 continue
-            if inherited and inherited != "kernel":
+            if inherited and not inherited.startswith("kernel"):
                 cause = inherited
             elif ev[0] == "d" and op in ("add_low_rank", "cat_rows"):
                 if wc == "triangular-label":
@@ -994,6 +1151,10 @@ def problems_of(label, rec):
                     rc = stp.get("roots_compatible")
                     cause = "%s:%s" % (op, {"incompatible": "incompatible-roots", "invalid-source": "invalid-source-roots",
                                             "compatible": "invalid-update"}.get(rc, "invalid-update"))
+                    if rc == "incompatible" and stp.get("root_route") == "computed-together" and stp.get("fresh_derive_bad") is False:
+                        # no listed route to an incompatible pair: both factors were computed within this call through
+                        # the same default choice, and the same derivation on a fresh copy of self transplants valid factors
+                        cause += "-computed-together"
             else:
                 cause = "%s:wrote-%s" % (op, wc)
             newc[ident] = cause
@@ -1009,7 +1170,7 @@ def report(ctx, label, expr, events, rec, si, key, why):
               "why": why, "step": si,
               "observed": {k: rec["steps"][si].get(k) for k in ("raised", "valid", "transparent", "why", "exc", "bad",
                                                                  "fresh_valid", "fresh_raised", "roots_compatible",
-                                                                 "method_same_as_fresh", "extra")}}
+                                                                 "method_same_as_fresh", "extra", "root_route", "cf_transparent")}}
     return ctx.violation(replay, key=key)
 
 
@@ -1103,6 +1264,14 @@ def run(ctx):
                     ojobs.append((label, expr, [("q", q, False), ("q", c, False)]))
         for _ in range(12 if ctx.quick else 300):
             ojobs.append((label, expr, random_hist(rng, rng.randrange(3, 9))))
+    fjobs = factor_jobs(ctx.quick)
+    ojobs += fjobs
+    others = others + factor_exprs()
+    for label, expr in others:
+        if label.startswith("Triangular"):
+            continue        # not positive definite: the factorization queries of the family are undefined
+        for h in explicit_then_default(label, ctx.quick):
+            ojobs.append((label, expr, h))
     results = execute(jobs + ojobs)
     t_exec = time.time() - t0
 
@@ -1172,9 +1341,13 @@ def run(ctx):
     hard = {m[0]: m for m in mism if m[2] not in (4, 6)}
     # a validity disagreement at a step at which the direct triage found that the class's own numerics are invalid on
     # a fresh object too (kernel hypothesis of the theorems fails: e.g. a Lanczos factor of a matrix with close
-    # eigenvalues) is explained by that: the model assumes valid kernels
+    # eigenvalues, or of rank max_root_decomposition_size < n - a setting the model does not read), or that such an
+    # entry was handed out later ("stale-entry:..."), is explained by that: the model assumes valid kernels.  The
+    # direct problem itself is still reported under its own key
     explained = [idx for idx, (_, j, code) in hard.items()
-                 if code in (3, 5) and any(si == j and k_.get("cause") in OUTSIDE_HYPOTHESES for (si, k_, _) in probs.get(idx, []))]
+                 if code in (3, 5) and any(si == j and (k_.get("cause") in OUTSIDE_HYPOTHESES
+                                                        or str(k_.get("cause")).startswith("stale-entry:"))
+                                           for (si, k_, _) in probs.get(idx, []))]
     for idx in explained:
         del hard[idx]
     stats["model_mismatches_explained_by_invalid_kernel"] = len(explained)
